@@ -337,7 +337,7 @@ static long long stamp_[NS + 1]; static int last_[NS + 1];
 static const int pair_first_[NS + 1] = { %(pairs)s };
 static long long pairbad_[NS + 1]; static long long pairwit_[NS + 1][4];
 static long long args_[4]; static long long epoch_;
-static int fuel_, diverged_; static long long ndiverged_;
+static int fuel_, diverged_; static long long ndiverged_; static long long ndivf_[4096]; static int curf_;
 int g; static int gseed_;
 static long long sunk_;
 void sink(long long v) { sunk_ += v; }
@@ -384,6 +384,7 @@ static void report_(void) {
       vmin_[i], vmax_[i], pairbad_[i], pairwit_[i][0], pairwit_[i][1], pairwit_[i][2], pairwit_[i][3]);
   }
   printf("D %%lld\n", ndiverged_);
+  for (int i = 0; i < 4096; i++) if (ndivf_[i]) printf("F %%d %%lld\n", i, ndivf_[i]);
 }
 """
 
@@ -413,16 +414,17 @@ def render_instrumented(funcs, nsites, pairs, extra_runtime=""):
         spans[f.name] = (a, r.line_no - 1)
     body = "\n".join(r.lines) + "\n"
     drv = [REPORT % {}, "int main(void) {"]
-    for f in funcs:
+    for fi_, f in enumerate(funcs):
         names = []
         ind = "  "
+        drv.append("  curf_ = %d;" % fi_)
         for k, (t, n, dom) in enumerate(f.params):
             vals = ", ".join("%dLL" % v for v in dom)
             drv.append("%s{ static const long long d%d_[] = { %s };" % (ind, k, vals))
             drv.append("%sfor (unsigned i%d = 0; i%d < %d; i%d++) { args_[%d] = d%d_[i%d];" % (ind, k, k, len(dom), k, k, k, k))
             names.append("(%s)d%d_[i%d]" % (t, k, k))
             ind += "  "
-        drv.append("%sfor (gseed_ = 0; gseed_ < %d; gseed_++) { g = gseed_; epoch_++; fuel_ = 0; diverged_ = 0; bn_ = 0; bover_ = 0; sunk_ += %s(%s); if (!diverged_ && !bover_) commit_(); else ndiverged_++; }"
+        drv.append("%sfor (gseed_ = 0; gseed_ < %d; gseed_++) { g = gseed_; epoch_++; fuel_ = 0; diverged_ = 0; bn_ = 0; bover_ = 0; sunk_ += %s(%s); if (!diverged_ && !bover_) commit_(); else { ndiverged_++; ndivf_[curf_]++; } }"
                    % (ind, 2 if f.uses_global else 1, f.name, ", ".join(names)))
         for k in range(len(f.params)):
             drv.append("  " * (len(f.params) - k) + "}}")
